@@ -68,7 +68,7 @@ TRUSTED = ["Gen/FilterKernels.v produced by translator/gen_filter_kernels.py (as
            "pandora.constants by import)",
            "Gen/BlockLoops.v produced by translator/gen_block_loops.py (ast transliteration of the double block loop: split expressions, statements on the running offsets where they stand, slice bounds, arrays resolved to np.zeros / np.full_like / np.copy / sliding_window view / parameter expression; fail closed) and its reading as a program by Lib/BlockSkeleton.v exec (total arrays, slice writes neither clamped nor shape-checked)"]
 
-GEN_MAX_PIXELS = 1500     # the extracted GENERATED code is run on the maps up to this size (every run)
+GEN_MAX_PIXELS = 1500     # the extracted GENERATED code is run on the maps up to this size (quick; thorough: 12000)
 SIDE_A = [3, 7, 49, 50, 51, 99, 100, 101, 103, 205]
 SIDE_B = [3, 5, 52, 101]
 INVALID = 0b01111000011
@@ -667,7 +667,9 @@ def gen_cases(rng, quick):
 
 
 def run(ctx):
+    global GEN_MAX_PIXELS  # pylint: disable=global-statement
     quick = ctx.tier == "quick"
+    GEN_MAX_PIXELS = 1500 if quick else 12000
     model = core.Model("x10")
     if getattr(ctx, "replay_case", None) is not None:
         rc = ctx.replay_case
@@ -705,6 +707,8 @@ def run(ctx):
                            "skeleton_wf Gen.BlockLoops.filter_bilateral = true /\\ filter_skeleton_ok KBilateral /\\ sk_B = "
                            "Gen.Constants.bilateral_block (C10_bilateral_block_loop_skeleton, vm_compute; skeletons read by "
                            "translator/gen_block_loops.py with ast, fail closed)",
+                           "Gen.FilterKernels.g_sliding_window (pandora/common.py: shape tuple, doubled strides, as_strided) is the array of all "
+                           "windows, element (i, j, a, b) = element (i + a, j + b), every offset inside the memory (C10_gen_sliding_window)",
                            "Gen.FilterKernels.g_normalized_gaussian = the canonical Gaussian formula tree (C10_gen_normalized_gaussian_is_the_gaussian, "
                            "reflexivity)",
                            "Gen.FilterKernels.g_gauss_spatial_kernel is the kernel_size x kernel_size table of ngs sigma ((i - k/2)^2 + (j - k/2)^2) "
